@@ -66,6 +66,14 @@ theorem transfer_functions_hermitian_odd (m n : ℕ) (hm : m % 2 = 1) (hn : n % 
     KerEven (smearKernel m n dist ang ps os) m n :=
   ⟨pixelKernel_even m n hm hn os, jitterKernel_even m n hm hn scale ps os, smearKernel_even m n hm hn dist ang ps os⟩
 
+/-- **pixel and jitter are Hermitian on every shape.** The pixel kernel is even in `f_y` and `f_x` separately and the jitter kernel
+depends on `f_x² + f_y²` only, so at the unpaired Nyquist sample of an even axis (where `−u ≡ u` and the frequency keeps its
+value) nothing changes: `K[−u, −v] = K[u, v]` for all rows and columns, even or odd. Only the directional sinc of `smear` needs
+the Nyquist allowance of the statement. -/
+theorem pixel_jitter_hermitian_all_shapes (m n : ℕ) (hm : 0 < m) (hn : 0 < n) (os scale ps : ℝ) :
+    KerEven (pixelKernel m n os) m n ∧ KerEven (jitterKernel m n scale ps os) m n :=
+  ⟨pixelKernel_even_any m n hm hn os, jitterKernel_even_any m n hm hn scale ps os⟩
+
 /-- zero extent (pixel width / jitter sigma / smear distance `0`) makes the transfer function identically one -/
 theorem zero_extent_kernel_one (s0 s1 : ℤ) (os ang ps : ℝ) (i j : ℤ) :
     (pixelKernel s0 s1 (0 : ℝ)).get i j = 1 ∧ (jitterKernel s0 s1 0 ps os).get i j = 1 ∧
@@ -175,9 +183,9 @@ example : ∃ (a b : ℤ), a < 0 ∧ 0 < b := ⟨-3, 2, by norm_num, by norm_num
 /-- **a non-negative convolution is returned unchanged and keeps the total** (conditional form, any axis parity; partial). Writing the exact circular
 convolution as the inverse transform of the product, `c = ifft2(fft2(img)·K)`: wherever `c` is real and non-negative the
 un-normalised output equals it, and if it is so at every sample the output total is `K[0,0]·Σ img = Σ img`.
-*Not proved:* that `c` is real — i.e. Hermitian symmetry of the three transfer functions on odd axes, and the size of the
-deviation caused by the unpaired Nyquist row/column on even axes; and the spatial-domain form of the convolution
-(convolution theorem). These clauses are evaluated on the real code by the oracle only. -/
+Realness of `c` is a hypothesis here; it is *proved* for pixel and jitter on every shape and for smear on odd × odd shapes
+(`pixel_jitter_equal_convolution_all_shapes`, `blurs_equal_convolution_odd`), so this conditional form is only needed for
+smear on even axes. -/
 theorem nonneg_convolution_kept_partial (img k : Arr ℝ) (m n : ℕ) (hm : img.s0 = m) (hn : img.s1 = n) (hm0 : 0 < m)
     (hn0 : 0 < n) (r : ℕ → ℕ → ℝ) (hr : ∀ i j, 0 ≤ r i j)
     (hc : ∀ i j : ℕ, i < m → j < n →
@@ -244,6 +252,46 @@ theorem blurs_equal_convolution_odd (img : Arr ℝ) (m n : ℕ) (hm : img.s0 = m
     equals_convolution_when_hermitian img _ m n hm hn hm0 hn0 h.2.2⟩
 
 example : ∃ m n : ℕ, m % 2 = 1 ∧ n % 2 = 1 ∧ m ≠ n := ⟨3, 5, rfl, rfl, by norm_num⟩
+
+/-- **pixel and jitter equal the convolution on every shape**, even axes included, with no realness assumption: the output is
+`|c|` with `c` the real exact circular convolution, equals `c` wherever `c ≥ 0`, keeps the total (unit DC gain), and the
+renormalised jitter output equals `c` too. -/
+theorem pixel_jitter_equal_convolution_all_shapes (img : Arr ℝ) (m n : ℕ) (hm : img.s0 = m) (hn : img.s1 = n) (hm0 : 0 < m)
+    (hn0 : 0 < n) (os scale ps : ℝ) :
+    EqualsConvolution img (pixelKernel img.s0 img.s1 os) m n ∧
+    EqualsConvolution img (jitterKernel img.s0 img.s1 scale ps os) m n := by
+  have h := pixel_jitter_hermitian_all_shapes m n hm0 hn0 os scale ps
+  rw [hm, hn]
+  exact ⟨equals_convolution_when_hermitian img _ m n hm hn hm0 hn0 h.1,
+    equals_convolution_when_hermitian img _ m n hm hn hm0 hn0 h.2⟩
+
+example : ∃ m n : ℕ, m % 2 = 0 ∧ n % 2 = 0 ∧ 0 < m ∧ m ≠ n := ⟨4, 6, rfl, rfl, by norm_num, by norm_num⟩
+
+/-- **convolution theorem: the Fourier form is the spatial circular convolution.** `conv img K = ifft2(fft2(img)·K)` — the object
+the "equals the convolution" theorems speak about — is `Σ_a Σ_b img[a,b]·h[(i−a) mod m, (j−b) mod n]` with the point-spread
+function `h = ifft2(K)`, for every shape and every real transfer function (`np.fft.fft2/ifft2` as the plain DFT pair). -/
+theorem conv_is_circular_convolution (img k : Arr ℝ) (m n : ℕ) (hm : img.s0 = m) (hn : img.s1 = n) (hkm : k.s0 = m) (hkn : k.s1 = n)
+    (hm0 : 0 < m) (hn0 : 0 < n) (i j : ℤ) :
+    (conv img k).get i j = ∑ a ∈ range m, ∑ b ∈ range n, (img.get a b : ℂ) *
+      (ifft2 (R := ℝ) (toCx (K := ℂ) k)).get ((i - a) % m) ((j - b) % n) :=
+  conv_eq_circular_convolution img k m n hm hn hkm hkn hm0 hn0 i j
+
+/-- **smear on even axes: the deviation is bounded by the unpaired Nyquist samples.** Split the directional sinc into its
+Hermitian (even) part `K_H` and its odd part `K_N` under negation of the frequency indices. Then at every sample the
+un-normalised smear output differs from `|c_H|` — `c_H = conv img K_H` is real — by at most `(1/(mn))·Σ|fft2(img)|·|K_N|`, and
+`K_N` vanishes off the Nyquist row (`2u = m`) and Nyquist column (`2v = n`): on odd × odd images it is zero and the bound is 0;
+on even axes it is exactly the contribution of the unpaired Nyquist row/column the statement allows. -/
+theorem smear_even_axis_deviation (img : Arr ℝ) (m n : ℕ) (hm : img.s0 = m) (hn : img.s1 = n) (hm0 : 0 < m) (hn0 : 0 < n)
+    (dist ang ps os : ℝ) (i j : ℤ) :
+    (conv img (evenPart (smearKernel m n dist ang ps os) m n)).get i j
+      = (((conv img (evenPart (smearKernel m n dist ang ps os) m n)).get i j).re : ℂ) ∧
+    abs ((blurCore ℂ img (smearKernel m n dist ang ps os)).get i j
+        - abs ((conv img (evenPart (smearKernel m n dist ang ps os) m n)).get i j).re)
+      ≤ (∑ v ∈ range n, ∑ u ∈ range m, ‖(fft2 (R := ℝ) (toCx (K := ℂ) img)).get u v‖
+          * |(oddPart (smearKernel m n dist ang ps os) m n).get u v|) / ((m : ℝ) * n) ∧
+    (∀ u v : ℤ, 2 * (u % (m : ℤ)) ≠ m → 2 * (v % (n : ℤ)) ≠ n → (oddPart (smearKernel m n dist ang ps os) m n).get u v = 0) := by
+  have h := blur_deviation_le img (smearKernel m n dist ang ps os) m n hm hn hm0 hn0 i j
+  exact ⟨h.1, h.2, fun u v hu hv => smear_oddPart_support m n hm0 hn0 dist ang ps os u v hu hv⟩
 
 /-- **the blur does not depend on the size of the physical unit.** Expressing the extent and the pixel scale in any other unit
 (both multiplied by `k ≠ 0`: metres, nanometres, radians, milli-arcseconds) gives exactly the same output — in particular a
